@@ -11,6 +11,34 @@ STRENGTHENED = {
  "C17-1": "missed at first (a call-back was atomic with the synchronisation operation before it): vsync.Event is now a scheduling point of its own",
  "C18-1": "missed at first (one message in flight at a time): build/parse of a second message between building and re-checking the first added to C18; result-stability (aliasing) checks also added to C03 (VLQ), C07 and C15",
  "C20-2": "missed at first (position + duration never exceeded 255): signature sequence 7/1,7/1 with position 100 and durations 200/255 added to C20",
+ "C02-1b": "missed at first (no payload above 4096 bytes in C02): long-payload sweep (4095..20000 bytes, followed by further events) added",
+ "C02-2b": "missed at first (sources were always bytes.Reader): every file is now also read through a plain reader, an io.SectionReader (seeker without ReadByte), a small bufio.Reader, and shaped files through an os.File",
+ "C03-1b": "missed at first (no write after a failed write): C10 now writes the value to a healthy destination after every faulted write and compares with the reference bytes; reported by C10",
+ "C03-2b": "missed at first (C03 had no payload-length sweep): scalar sweeps (resolutions, SMPTE, deltas, payload lengths 0..300 and around every block/VLQ boundary) are now shared by C01 and C03",
+ "C04-1b": "missed at first (no empty Send calls): 'empty-chunks' partitions (nil / zero-length Send with a time delta between all bytes) added to C04",
+ "C04-2b": "second use of the same port with other listen options: reported by C14 (re-listen space) and C17 (life-cycle search with sysex listeners)",
+ "C05-1b": "missed at first (overstated lengths always had short payloads): declared-length cases now also carry 4095..9000 bytes of payload",
+ "C06-1b": "missed at first (buffer sizes 3, 5, 8 only): sweep over buffer sizes 2..260, 511..4096 and default x sysex lengths around every boundary added to C06",
+ "C06-2b": "missed at first (product search was bytewise): second product search whose operations are chunks of one, two and three bytes (833 operations) to the fixpoint",
+ "C07-1b": "missed at first (accessors always got non-nil pointers): every nil/non-nil combination of out-parameters added to C07",
+ "C07-2b": "manifests only under concurrent construction (sequential results identical): reported by the race pass of C17, which now listens on two in ports through midi.ListenTo while two senders run",
+ "C08-1b": "missed at first (length fields of at most 4 bytes): meta messages with up to 12 continuation bytes added to C08 (patterns chosen so that a 32-bit decoder sees a small length)",
+ "C09-2b": "missed at first (no payload above 4096 bytes in C09): long payloads and per-call sizes 7,100,101,1000,4095,4096,4097 added",
+ "C10-1b": "missed at first (only sticky failures): transient failures (exactly one Write call rejected or cut short) added to C10",
+ "C11-2b": "missed at first (tempo track held tempo events only): two more track styles (filler event carries the gap and the tempo has delta 0; gap split between filler and tempo)",
+ "C12-1b": "missed at first (Only() never used): Only(ControlChangeMsg) with interleaved program changes that carry deltas added to C12",
+ "C12-2b": "missed at first (a reader was played once, Send took no time): second playback on the same reader into a port whose Send takes 60 ms of virtual time",
+ "C13-1b": "missed at first (undefined bytes not in the alphabet): FD, F9, F4 and FF added to C13's alphabet",
+ "C14-1b": "missed at first (fresh driver per option set): re-listen space (first listener with options X, stop, second listener with options Y on the same port, all 64 pairs) added to C14",
+ "C14-2b": "not in C14's domain (a sysex interrupted by a status byte is not sender-legal); reported by C06",
+ "C15-2b": "missed at first (fresh destination per call): accessor calls with a re-used destination (long, short, medium ...) added to C15",
+ "C16-1b": "missed at first (at most 120 events): dense files of 128..600 events on adjacent channels added to C16",
+ "C16-2b": "missed at first (each value converted once): C16 now checks that the source is unchanged by the conversion and that a second conversion gives the same result",
+ "C17-1b": "missed at first (all listeners used the same configuration): life-cycle search now has listeners with and without sysex and a sysex message",
+ "C17-2b": "missed at first (senders were joined before Close): scenario S7, a sender overlapping with Close of the out port",
+ "C19-2b": "manifests only with two streams decoded concurrently: reported by the race pass of C17 (two in ports listening at once)",
+ "C20-1b": "missed at first (songs of at most 3 bars): songs of 300..5500 bars (more than 65535 thirty-seconds) added to C20",
+ "C20-2b": "missed at first (songs were always built with AddBar): songs exported, imported with FromSMF, edited through their public fields and exported again are now compared with the bar model read off the edited song",
 }
 rows = []
 for d in sorted(glob.glob(V + "/seeded/*/meta.json")):
